@@ -1,8 +1,12 @@
-package main
+// Package lib holds what the C03 drivers (VM driver cmd/c03, end-to-end driver cmd/c03e2e) share: the wiring
+// record, the real filter builders and processors, and the frame generator.
+package lib
 
 import (
 	"encoding/binary"
 	"fmt"
+	"net"
+	"strings"
 
 	"verifharness/cmd/c06/fr"
 	"verifharness/hlib"
@@ -10,23 +14,26 @@ import (
 
 // gen draws a scan range and then frames RELATIVE to it: valid replies of the wiring's scan and
 // mutants that differ from a valid reply in one respect.
-type gen struct {
+type Gen struct {
 	g   fr.Gen
-	w   wiring
+	w   Wiring
 	raw bool // link type of the frames: raw IPv4 (VPN mode) or Ethernet
 
 	bigPayload bool
-	hasNet     bool
-	net    uint32
-	bits   int
-	ports  [][2]int
+	// when set, frames are addressed to this IP / MAC instead of random ones
+	FixDstIP  *[4]byte
+	FixDstMAC []byte
+	hasNet    bool
+	net       uint32
+	bits      int
+	ports     [][2]int
 }
 
-func newGen(r *hlib.SplitMix64, w wiring, raw bool) *gen {
-	return &gen{g: fr.Gen{R: r}, w: w, raw: raw}
+func NewGen(r *hlib.SplitMix64, w Wiring, raw bool) *Gen {
+	return &Gen{g: fr.Gen{R: r}, w: w, raw: raw}
 }
 
-func (c *gen) randomRange(i int) (string, [][2]int) {
+func (c *Gen) RandomRange(i int) (string, [][2]int) {
 	r := c.g.R
 	subnet := ""
 	if r.Intn(4) != 0 {
@@ -62,15 +69,15 @@ func (c *gen) randomRange(i int) (string, [][2]int) {
 	return subnet, c.ports
 }
 
-func (c *gen) l2(etype uint16, l3 []byte) []byte {
+func (c *Gen) l2(etype uint16, l3 []byte) []byte {
 	if c.raw {
 		return fr.Exact(l3)
 	}
-	return fr.Cat(fr.Eth(c.g.MAC(), c.g.MAC(), etype), l3)
+	return fr.Cat(fr.Eth(c.dstMAC(), c.g.MAC(), etype), l3)
 }
 
 // srcIn / srcOut: an address inside the subnet (or anything when there is none) / just outside it
-func (c *gen) srcIn() (a [4]byte) {
+func (c *Gen) srcIn() (a [4]byte) {
 	v := uint32(c.g.R.Uint64())
 	if c.hasNet {
 		if c.bits == 32 {
@@ -83,7 +90,7 @@ func (c *gen) srcIn() (a [4]byte) {
 	return
 }
 
-func (c *gen) srcOut() (a [4]byte) {
+func (c *Gen) srcOut() (a [4]byte) {
 	v := uint32(c.g.R.Uint64())
 	if c.hasNet {
 		// flip one network bit (the lowest one: the neighbouring network; or a random one)
@@ -98,7 +105,7 @@ func (c *gen) srcOut() (a [4]byte) {
 	return
 }
 
-func (c *gen) portIn() uint16 {
+func (c *Gen) portIn() uint16 {
 	if len(c.ports) == 0 {
 		return c.g.U16()
 	}
@@ -112,7 +119,7 @@ func (c *gen) portIn() uint16 {
 	return uint16(p[0] + c.g.R.Intn(p[1]-p[0]+1))
 }
 
-func (c *gen) portOut() uint16 {
+func (c *Gen) portOut() uint16 {
 	if len(c.ports) == 0 {
 		return c.g.U16()
 	}
@@ -139,7 +146,7 @@ func (c *gen) portOut() uint16 {
 }
 
 // ipOptBlock / tcpOptBlock: well-formed option blocks of exactly n bytes (n a multiple of 4, at most 40)
-func (c *gen) ipOptBlock(n int) []byte {
+func (c *Gen) ipOptBlock(n int) []byte {
 	if n == 0 {
 		return nil
 	}
@@ -154,7 +161,7 @@ func (c *gen) ipOptBlock(n int) []byte {
 	return b
 }
 
-func (c *gen) tcpOptBlock(n int) []byte {
+func (c *Gen) tcpOptBlock(n int) []byte {
 	if n == 0 {
 		return nil
 	}
@@ -188,7 +195,7 @@ type tcpSpec struct {
 	pad     int
 }
 
-func (c *gen) goodTCP() tcpSpec {
+func (c *Gen) goodTCP() tcpSpec {
 	fl := uint16(0x12)
 	if c.w.Filter != 1 {
 		fl = fr.Pick[uint16](c.g, 0x12, 0x14, 0x04, 0x10, 0x11, 0x00, 0x29, 0x112, 0x1ff, uint16(c.g.R.Intn(512)))
@@ -196,11 +203,11 @@ func (c *gen) goodTCP() tcpSpec {
 	return tcpSpec{src: c.srcIn(), sport: c.portIn(), flags: fl, ff: fr.Pick[uint16](c.g, 0, 0x4000, 0x4000), proto: 6}
 }
 
-func (c *gen) buildTCP(s tcpSpec) []byte {
+func (c *Gen) buildTCP(s tcpSpec) []byte {
 	seg := fr.TCP(fr.TCPOpt{Sport: s.sport, Dport: c.g.U16(), Seq: uint32(c.g.R.Uint64()), Ack: uint32(c.g.R.Uint64()),
 		Flags: s.flags, Window: c.g.U16(), Csum: c.g.U16(), Urg: c.g.U16(), Options: s.tcpOpts}, s.payload)
 	ip := fr.IP(fr.IPOpt{Version: s.version, TotalLen: -1, TOS: c.g.U8(), ID: c.g.U16(), FlagsFrag: s.ff, TTL: c.g.U8(), Proto: s.proto,
-		Src: s.src, Dst: c.g.IP4(), Options: s.ipOpts}, seg)
+		Src: s.src, Dst: c.dstIP(), Options: s.ipOpts}, seg)
 	f := c.l2(0x0800, ip)
 	if s.pad > 0 && !c.raw {
 		f = fr.Pad(f, len(f)+s.pad)
@@ -208,22 +215,26 @@ func (c *gen) buildTCP(s tcpSpec) []byte {
 	return f
 }
 
-func (c *gen) buildICMP(src [4]byte, typ, code uint8, ipOpts []byte, ff uint16, proto uint8) []byte {
+func (c *Gen) buildICMP(src [4]byte, typ, code uint8, ipOpts []byte, ff uint16, proto uint8) []byte {
 	pl := c.g.R.Intn(20)
 	if c.bigPayload {
 		pl = 1500 - 20 - len(ipOpts) - 8 - c.g.R.Intn(300)
 	}
 	msg := fr.ICMP(typ, code, c.g.U16(), c.g.U16(), c.g.R.Bytes(pl))
 	return c.l2(0x0800, fr.IP(fr.IPOpt{TotalLen: -1, TOS: c.g.U8(), ID: c.g.U16(), FlagsFrag: ff, TTL: c.g.U8(), Proto: proto,
-		Src: src, Dst: c.g.IP4(), Options: ipOpts}, msg))
+		Src: src, Dst: c.dstIP(), Options: ipOpts}, msg))
 }
 
-func (c *gen) buildARP(spa [4]byte, hl, pl uint8, pad bool) []byte {
-	addrs := fr.Cat(c.g.R.Bytes(int(hl)), spa[:], c.g.R.Bytes(int(hl)), c.g.R.Bytes(int(pl)))
+func (c *Gen) buildARP(spa [4]byte, hl, pl uint8, pad bool) []byte {
+	sha := c.g.R.Bytes(int(hl))
+	if hl == 6 {
+		sha = c.g.SenderMAC()
+	}
+	addrs := fr.Cat(sha, spa[:], c.g.R.Bytes(int(hl)), c.g.R.Bytes(int(pl)))
 	if pl != 4 {
 		addrs = c.g.R.Bytes(2*int(hl) + 2*int(pl))
 	}
-	f := fr.Cat(fr.Eth(c.g.MAC(), c.g.MAC(), 0x0806), fr.ARP(fr.ARPOpt{HType: 1, PType: 0x0800, HLen: hl, PLen: pl,
+	f := fr.Cat(fr.Eth(c.dstMAC(), c.g.MAC(), 0x0806), fr.ARP(fr.ARPOpt{HType: 1, PType: 0x0800, HLen: hl, PLen: pl,
 		Op: fr.Pick[uint16](c.g, 1, 2, 2), Addrs: addrs}))
 	if pad {
 		f = fr.Pad(f, 60)
@@ -231,7 +242,7 @@ func (c *gen) buildARP(spa [4]byte, hl, pl uint8, pad bool) []byte {
 	return f
 }
 
-func (c *gen) ipv6(nh uint8, inner []byte, frag bool) []byte {
+func (c *Gen) ipv6(nh uint8, inner []byte, frag bool) []byte {
 	h := make([]byte, 40)
 	h[0] = 0x60
 	h[7] = 64
@@ -248,7 +259,7 @@ func (c *gen) ipv6(nh uint8, inner []byte, frag bool) []byte {
 }
 
 // one frame of the TCP scans
-func (c *gen) tcpFrame() ([]byte, string) {
+func (c *Gen) tcpFrame() ([]byte, string) {
 	s := c.goodTCP()
 	switch c.g.R.Intn(28) {
 	case 24, 25: // header sizes swept over everything a well-formed reply can carry
@@ -297,8 +308,8 @@ func (c *gen) tcpFrame() ([]byte, string) {
 	case 14:
 		return c.ipv6(fr.Pick[uint8](c.g, 6, 6, 17, 58), fr.TCP(fr.TCPOpt{Sport: s.sport, Flags: s.flags}, nil), c.g.R.Intn(3) == 0), "ipv6"
 	case 15: // IP-in-IP: outer source inside, inner complete
-		inner := fr.IP(fr.IPOpt{TotalLen: -1, Proto: 6, Src: c.srcIn(), Dst: c.g.IP4()}, fr.TCP(fr.TCPOpt{Sport: s.sport, Flags: s.flags}, nil))
-		return c.l2(0x0800, fr.IP(fr.IPOpt{TotalLen: -1, Proto: fr.Pick[uint8](c.g, 4, 94), Src: c.srcIn(), Dst: c.g.IP4()}, inner)), "ip-in-ip"
+		inner := fr.IP(fr.IPOpt{TotalLen: -1, Proto: 6, Src: c.srcIn(), Dst: c.dstIP()}, fr.TCP(fr.TCPOpt{Sport: s.sport, Flags: s.flags}, nil))
+		return c.l2(0x0800, fr.IP(fr.IPOpt{TotalLen: -1, Proto: fr.Pick[uint8](c.g, 4, 94), Src: c.srcIn(), Dst: c.dstIP()}, inner)), "ip-in-ip"
 	case 16: // VLAN
 		if c.raw {
 			return c.buildTCP(s), "valid"
@@ -329,7 +340,7 @@ func (c *gen) tcpFrame() ([]byte, string) {
 	return c.buildTCP(s), "bad-ipopts"
 }
 
-func (c *gen) icmpFrame() ([]byte, string) {
+func (c *Gen) icmpFrame() ([]byte, string) {
 	typ := fr.Pick[uint8](c.g, 0, 3, 3, 11, 13, 14, 5, 12, c.g.U8())
 	code := c.g.U8()
 	switch c.g.R.Intn(19) {
@@ -355,8 +366,8 @@ func (c *gen) icmpFrame() ([]byte, string) {
 	case 9:
 		return c.ipv6(58, fr.ICMP(129, 0, 1, 1, nil), false), "ipv6"
 	case 10:
-		inner := fr.IP(fr.IPOpt{TotalLen: -1, Proto: 1, Src: c.srcIn(), Dst: c.g.IP4()}, fr.ICMP(typ, code, 1, 1, nil))
-		return c.l2(0x0800, fr.IP(fr.IPOpt{TotalLen: -1, Proto: 4, Src: c.srcIn(), Dst: c.g.IP4()}, inner)), "ip-in-ip"
+		inner := fr.IP(fr.IPOpt{TotalLen: -1, Proto: 1, Src: c.srcIn(), Dst: c.dstIP()}, fr.ICMP(typ, code, 1, 1, nil))
+		return c.l2(0x0800, fr.IP(fr.IPOpt{TotalLen: -1, Proto: 4, Src: c.srcIn(), Dst: c.dstIP()}, inner)), "ip-in-ip"
 	case 11:
 		f := c.buildICMP(c.srcIn(), typ, code, nil, 0, 1)
 		return fr.Exact(f[:c.g.R.Intn(len(f)+1)]), "truncated"
@@ -375,7 +386,7 @@ func (c *gen) icmpFrame() ([]byte, string) {
 	return c.buildICMP(c.srcIn(), fr.Pick[uint8](c.g, 8, 9, 7, 0), code, nil, 0, 1), "type-near-8"
 }
 
-func (c *gen) arpFrame() ([]byte, string) {
+func (c *Gen) arpFrame() ([]byte, string) {
 	switch c.g.R.Intn(11) {
 	case 10: // trailer longer than the minimum frame
 		return fr.Pad(c.buildARP(c.srcIn(), 6, 4, true), 61+c.g.R.Intn(200)), "valid+long-trailer"
@@ -400,7 +411,7 @@ func (c *gen) arpFrame() ([]byte, string) {
 	return f, "other-ethertype"
 }
 
-func (c *gen) frames(n int) ([][]byte, []string) {
+func (c *Gen) Frames(n int) ([][]byte, []string) {
 	var fs [][]byte
 	var cl []string
 	for i := 0; i < n; i++ {
@@ -418,4 +429,80 @@ func (c *gen) frames(n int) ([][]byte, []string) {
 		cl = append(cl, k)
 	}
 	return fs, cl
+}
+
+func (c *Gen) dstIP() [4]byte {
+	if c.FixDstIP != nil {
+		return *c.FixDstIP
+	}
+	return c.g.IP4()
+}
+
+func (c *Gen) dstMAC() []byte {
+	if c.FixDstMAC != nil {
+		return c.FixDstMAC
+	}
+	return c.g.MAC()
+}
+
+// E2ERange draws a range for the end-to-end driver: no subnet or a /8../24 one, at most three port ranges.
+func (c *Gen) E2ERange() (string, [][2]int) {
+	r := c.g.R
+	subnet := ""
+	if r.Intn(4) != 0 {
+		c.hasNet = true
+		c.bits = fr.Pick(c.g, 8, 16, 24, 24, 20)
+		c.net = uint32(r.Uint64()) &^ ((1 << uint(32-c.bits)) - 1)
+		if c.net>>24 == 0 || c.net>>24 >= 224 || c.net>>24 == 127 {
+			c.net = 10<<24 | c.net&0x00ffffff
+		}
+		subnet = fmt.Sprintf("%d.%d.%d.%d/%d", c.net>>24, c.net>>16&255, c.net>>8&255, c.net&255, c.bits)
+	}
+	if c.w.Filter <= 1 || c.w.Method == "udp" {
+		for j := r.Intn(4); j > 0; j-- {
+			a := 1 + r.Intn(65000)
+			c.ports = append(c.ports, [2]int{a, a + r.Intn(30)})
+		}
+	}
+	return subnet, c.ports
+}
+
+// Sentinel builds a plain reply-shaped frame of the wiring's scan from host number k (250, 251) of the
+// subnet (or of 198.18.0.0/24 when there is none); its record is recognised by that source address.
+func (c *Gen) Sentinel(k byte) ([]byte, string) {
+	base := uint32(198<<24 | 18<<16)
+	if c.hasNet {
+		base = c.net
+	}
+	v := base&^0xff | uint32(k)
+	src := [4]byte{byte(v >> 24), byte(v >> 16), byte(v >> 8), byte(v)}
+	ip := fmt.Sprintf("%d.%d.%d.%d", src[0], src[1], src[2], src[3])
+	switch {
+	case c.w.Filter <= 1:
+		return c.buildTCP(tcpSpec{src: src, sport: c.portIn(), flags: 0x12, proto: 6, ff: 0x4000}), ip
+	case c.w.Filter == 2:
+		return c.buildICMP(src, 0, 0, nil, 0, 1), ip
+	}
+	return c.buildARP(src, 6, 4, true), ip
+}
+
+// IsSentinelHost reports whether a test frame happens to come from one of the two sentinel hosts.
+func IsSentinelHost(ip string) bool {
+	return strings.HasSuffix(ip, ".250") || strings.HasSuffix(ip, ".251")
+}
+
+// SetRange makes the generator work relative to an explicit range (replays).
+func (c *Gen) SetRange(subnet string, ports [][2]int) {
+	c.ports = ports
+	if subnet == "" {
+		return
+	}
+	_, n, err := net.ParseCIDR(subnet)
+	if err != nil {
+		panic(err)
+	}
+	ip4 := n.IP.To4()
+	c.hasNet = true
+	c.net = uint32(ip4[0])<<24 | uint32(ip4[1])<<16 | uint32(ip4[2])<<8 | uint32(ip4[3])
+	c.bits, _ = n.Mask.Size()
 }
